@@ -10,7 +10,7 @@ class Labelling:
     """How a tissue is numbered and stored. All fields are plain data (JSON-able)."""
 
     def __init__(self, seed=0, relabel_v=False, relabel_e=False, relabel_c=False, shifts=False, flips="none",
-                 flip_bits=None, perm_cells=False):
+                 flip_bits=None, perm_cells=False, start_at=None):
         self.seed = seed
         self.relabel_v = relabel_v
         self.relabel_e = relabel_e
@@ -19,10 +19,12 @@ class Labelling:
         self.flips = flips            # 'none' (all CCW) | 'all' (all CW) | 'mixed' | 'bits'
         self.flip_bits = flip_bits    # int bit pattern over cells in id order, when flips == 'bits'
         self.perm_cells = perm_cells  # cells constructed (and inserted) in a permuted order
+        self.start_at = start_at      # [tissue cell id, token as list]: that cell's stored list starts at that token
 
     def to_json(self):
         return dict(seed=self.seed, relabel_v=self.relabel_v, relabel_e=self.relabel_e, relabel_c=self.relabel_c,
-                    shifts=self.shifts, flips=self.flips, flip_bits=self.flip_bits, perm_cells=self.perm_cells)
+                    shifts=self.shifts, flips=self.flips, flip_bits=self.flip_bits, perm_cells=self.perm_cells,
+                    start_at=self.start_at)
 
     @staticmethod
     def from_json(d):
@@ -119,6 +121,9 @@ def realise(t, n_int, lab=None):
             poly = poly[s:] + poly[:s]
         if flipbits[idx]:
             poly = poly[::-1]
+        if lab.start_at and lab.start_at[0] == cid and tuple(lab.start_at[1]) in poly:
+            s = poly.index(tuple(lab.start_at[1]))
+            poly = poly[s:] + poly[:s]
         polys[cid] = poly
 
     # ids
